@@ -25,7 +25,7 @@ class C17(ThreadsProperty):
     assumptions = ["backward steps of the wall clock are not injected (the statement has no meaning under them)",
                    "tag replacement and cancellation are excluded here (C18 owns them); the drain cut-off (>= 1024 consecutive MIN_TD cycles past end_time) is not provoked"]
 
-    def run(self, case, fresh=False):
+    def run_one(self, case, fresh=False, keep_events=False):
         sc, text, res = self.execute(case, fresh)
         if res.timeout:
             return Outcome(harness_error="timeout (real blocking inside the simulator?)", sample=text)
@@ -41,7 +41,7 @@ class C17(ThreadsProperty):
             v2, s2 = th.check_push(h)
             if v2 and v2[0].startswith("lost_wakeup"):
                 v = v2
-        out = self.outcome(sc, text, res, v, stats)
+        out = self.outcome(sc, text, res, v, stats, keep_events)
         if not v and stats.get("known_F4"):
             out.violation = dict(clause="known", detail=F4, known=F4)
         return out
